@@ -23,7 +23,7 @@ def read_field(heap: Heap, ref: Val, field: str) -> Val:
     d, t = decl.find_field(ref.t.cls, field)
     if d is None:
         raise Unsupported(f"field {ref.t.cls}.{field} not declared")
-    terms = [z3.Select(heap.get(k, s), ref.v) for k, s in zip(field_keys(d.short, field, t), t.sorts())]
+    terms = [heap.select(heap.get(k, s), ref.v) for k, s in zip(field_keys(d.short, field, t), t.sorts())]
     return t.make(terms)
 
 
